@@ -101,6 +101,11 @@ func (p *poller) addConn(c *Conn) error {
 			_ = p.modWrite(fd)
 		}
 		c.mux.Unlock()
+		// Stop sweeps the table once: a connection that is published
+		// behind the sweep (AddConn from a user's goroutine) closes itself.
+		if p.g.isStopping() {
+			_ = c.Close()
+		}
 	}
 	return err
 }
